@@ -9,6 +9,7 @@ import (
 	"bytes"
 	"context"
 	"encoding/binary"
+	"fmt"
 	"sync"
 	"time"
 
@@ -367,9 +368,20 @@ func RunLayer(p Params, acts []Act, concurrent bool) LayerTrace {
 			return // not a request (e.g. a stray error message of the peer): nothing is "delivered as a request body"
 		}
 		mu.Lock()
-		tr.App = append(tr.App, delivery(r, up))
+		first := delivery(r, up)
+		tr.App = append(tr.App, first)
 		v := len(tr.App) // every execution produces a new representation
 		mu.Unlock()
+		if concurrent && p.L > 0 {
+			// the request is the application's while its handler runs: it looks at it again a moment later (copies of the last
+			// block that are handled at the same time must not reach into it)
+			time.Sleep(time.Millisecond)
+			if again := delivery(r, up); again.Len != first.Len || fmt.Sprint(again.Pieces) != fmt.Sprint(first.Pieces) || fmt.Sprint(again.Opts) != fmt.Sprint(first.Opts) {
+				mu.Lock()
+				tr.App = append(tr.App, again) // what the application now holds is not what it was handed
+				mu.Unlock()
+			}
+		}
 		code := codes.Content
 		if r.Code() == codes.POST || r.Code() == codes.PUT {
 			code = codes.Changed
